@@ -33,7 +33,7 @@ func TestC03(t *testing.T) {
 	r := core.NewRun(t, "C03")
 	r.Level = "fault_enumeration"
 	r.Rule = "seeded multi-chain histories (3 chains, ERC-20 tokens of two origins plus the native coin, forward and back transfers, with/without destination call data whose execution succeeds, reverts, runs out of gas, fails in a post-transaction hook (nested cross-chain call to an unknown chain, staking delegate without funds) or hits a bad receiver; relays and acks in random order). After EVERY delivered transaction the conservation ledger is compared with the contracts' own views (outTokens, bindings, balanceOf, totalSupply, bank balances, packetFees escrow). Non-trivial = a delivered transaction (distinct by history and position) after which the ledger was evaluated."
-	r.Assume("bindings use scale 0 (the ledger compares raw amounts)")
+	r.Assume("one origin unit = 10^scale wrapped units (scales 0, 2, 6 are exercised); packet amounts are in origin units in both directions")
 	defer r.Finish()
 	H, L := r.N(6, 150), r.N(40, 90)
 	for h := 0; h < H; h++ {
@@ -56,11 +56,13 @@ func TestC03(t *testing.T) {
 
 func runHistory(r *core.Run, cid string, L int) {
 	rng := r.Rng(cid)
-	s, err := pkt.NewSim(rng, pkt.Config{Chains: 3, Users: 2, Relayers: 2, Tokens: 2, Native: true})
+	scale := []uint8{0, 0, 2, 6}[rng.Intn(4)]
+	s, err := pkt.NewSim(rng, pkt.Config{Chains: 3, Users: 2, Relayers: 2, Tokens: 2, Native: true, Scale: scale})
 	if err != nil {
 		r.Inconclusive("%s: world construction failed: %v", cid, err)
 		return
 	}
+	r.Count(fmt.Sprintf("histories/scale-%d", scale), 1)
 	l := &ledger{r: r, cid: cid, s: s, supply0: map[string]*big.Int{}}
 	for _, t := range s.Tokens {
 		if t.Addr != core.ZeroAddr {
@@ -150,7 +152,11 @@ func (l *ledger) send() {
 		l.r.Count("packets_sent/"+kind, len(ps))
 		if sp.Token != nil && len(ps) == 1 {
 			after := l.balance(sp.Src, tokAddr, sp.User.Eth)
-			exp := new(big.Int).Sub(before, sp.Amount)
+			debit := new(big.Int).Set(sp.Amount)
+			if sp.Token.Origin != sp.Src {
+				debit.Mul(debit, factor(sp.Token, sp.Src))
+			}
+			exp := new(big.Int).Sub(before, debit)
 			if sameToken(sp.FeeToken, sp.Token, sp.Src) && sp.FeeAmount != nil {
 				exp.Sub(exp, sp.FeeAmount)
 			}
@@ -229,7 +235,11 @@ func (l *ledger) recvPkt(p *pkt.Pkt) {
 		}
 	} else if isXfer && validReceiver && p.Spec.Call.Kind != "agent-unknown-chain" {
 		after := l.balance(p.DstN, p.Spec.Token.AddrOn(p.DstN), recvAddr)
-		if new(big.Int).Sub(after, recvBefore).Cmp(p.Spec.Amount) != 0 {
+		want := new(big.Int).Set(p.Spec.Amount)
+		if p.SrcN == p.Spec.Token.Origin {
+			want.Mul(want, factor(p.Spec.Token, p.DstN)) // minted in wrapped units
+		}
+		if new(big.Int).Sub(after, recvBefore).Cmp(want) != 0 {
 			l.r.Violation(l.cid, "recv/success-ack-but-receiver-not-credited-exactly", map[string]interface{}{"packet": p.Key(), "before": recvBefore, "after": after, "amount": p.Spec.Amount, "log": s.Log})
 		}
 	}
@@ -281,7 +291,10 @@ func (l *ledger) ackPkt(p *pkt.Pkt) {
 		delta := new(big.Int).Sub(after, before)
 		exp := big.NewInt(0)
 		if p.AckCode != 0 {
-			exp = p.Spec.Amount
+			exp = new(big.Int).Set(p.Spec.Amount)
+			if p.Spec.Token.Origin != p.SrcN {
+				exp.Mul(exp, factor(p.Spec.Token, p.SrcN))
+			}
 		}
 		if delta.Cmp(exp) != 0 {
 			key := "ack/refund-on-success-ack"
@@ -294,7 +307,12 @@ func (l *ledger) ackPkt(p *pkt.Pkt) {
 	l.check("ack "+p.Key(), o)
 }
 
-// unresolved amount of token t between its origin and chain x according to the packet model.
+// factor is 10^scale of token t on chain x: one origin unit is 10^scale wrapped units.
+func factor(t *core.Token, x *core.Node) *big.Int {
+	return new(big.Int).Exp(big.NewInt(10), big.NewInt(int64(t.Scale[x.Name])), nil)
+}
+
+// unresolved amount (in WRAPPED units of chain x) of token t between its origin and chain x according to the packet model.
 func (l *ledger) unresolved(t *core.Token, x *core.Node) *big.Int {
 	sum := big.NewInt(0)
 	for _, p := range l.s.Pkts {
@@ -309,7 +327,8 @@ func (l *ledger) unresolved(t *core.Token, x *core.Node) *big.Int {
 		delivered := p.Received && p.AckCode == 0
 		refunded := p.Acked && p.AckCode != 0
 		if !delivered && !refunded {
-			sum.Add(sum, p.Spec.Amount)
+			// packet amounts are in origin units in both directions
+			sum.Add(sum, new(big.Int).Mul(p.Spec.Amount, factor(t, x)))
 		}
 	}
 	return sum
@@ -345,7 +364,7 @@ func (l *ledger) check(step string, o *pkt.Obs) {
 			escrow.Add(escrow, out)
 			wrapped := t.Wrapped[x.Name]
 			bind := x.Bindings(wrapped, O.Name)
-			d := new(big.Int).Sub(out, bind.Amount)
+			d := new(big.Int).Sub(new(big.Int).Mul(out, factor(t, x)), bind.Amount)
 			exp := l.unresolved(t, x)
 			l.r.Count("ledger_comparisons", 1)
 			if d.Cmp(exp) != 0 {
